@@ -288,6 +288,10 @@ class Assembly:
         b = body.lstrip()
         assert b.startswith('{')
         inner = b[1:]
+        if epilogue and re.search(r'\breturn\b|\?\s*[;.)\n]', X.strip_comments(inner)):
+            # the epilogue's proof hints ride on the body's final value: an early exit (`return`, `?`) leaves the function before them, so that
+            # exit would be checked without its hints - undecided, never a failed proof
+            raise Undecided('unsupported construct in fn %s: an early exit (`return` / `?`) in a body whose proof hints are spliced after its final value' % a['name'])
 
         def emit_one(sig_text, spec_text, twin):
             start = self.cur_line()
